@@ -215,6 +215,9 @@ func runReader(c *ctx) {
 
 				return
 			}
+			// The error value is the caller's now; what it does with it (here:
+			// it overwrites the exported field) must not show in later calls.
+			le.Limit = 4242424242
 			past++
 			if past > 3 {
 				break
@@ -511,7 +514,7 @@ func runWriter(c *ctx) {
 		sw.FailRate = 4
 		// Kinds of write errors, among them the one that package os retries.
 		sw.Errs = []error{kernel.ErrInjected, syscall.EINTR, io.ErrShortWrite, fmt.Errorf("write: %w", syscall.EPIPE),
-			os.ErrClosed, io.ErrClosedPipe, fmt.Errorf("log file: %w", os.ErrClosed)}
+			os.ErrClosed, io.ErrClosedPipe, fmt.Errorf("log file: %w", os.ErrClosed), os.ErrDeadlineExceeded}
 	}
 	// The wrapped writer may offer more than Write (io.ByteWriter, as a
 	// bufio.Writer or a bytes.Buffer does); what arrives through it counts like
